@@ -30,7 +30,7 @@ TRUSTED = ["fork-per-command runner, audit-log mtime normaliser and the Database
 ASSUMPTIONS = ["a tag (tag, product, flavor) is one designation on the whole EUPS_PATH (DESIGN 6 C06, reading)",
                "table files are compared by identity of their path class (default `ups/<name>.table` or `none`)"]
 
-WORKERS = int(os.environ.get("VERIF_WORKERS", "6"))
+WORKERS = int(os.environ.get("VERIF_WORKERS", "12"))
 EMPTY = {"decls": [], "tags": []}
 
 
@@ -59,7 +59,7 @@ def kind_of(c):
 
 
 def d16_class(cmd, rec, prev, real, dirs):
-    """class predicate of D16 for a command: (1) it accepted the cache of a stack (only its native flavor
+    """class predicate of D16 (repaired in 9143b09; kept so that a regression is named) for a command: (1) it accepted the cache of a stack (only its native flavor
     loaded) that declares the command's product in a fallback flavor, and (2) the reference, shown only the
     flavors the command loaded, implies exactly what the implementation did"""
     f = cmd.get("flavor", "Linux")
@@ -250,11 +250,11 @@ def run(ctx):
     cases = corpus_cases()
     ctx.hist("corpus", len(cases))
     evaluate(ctx, cases)
-    n = ctx.n(300, 10000)
+    n = ctx.n(2000, 15000)
     done = 0
-    soft = ctx.t0 + (85 if ctx.tier == "quick" and not ctx.escalated else 1e9)   # keep the quick tier under ~3 minutes
+    soft = ctx.t0 + (70 if ctx.tier == "quick" and not ctx.escalated else 1e9)   # as many histories as fit in ~100 s wall
     while done < n and not ctx.out_of_time() and time.time() < soft:
-        k = min(48, n - done)
+        k = min(96, n - done)
         evaluate(ctx, [lib_db.gen_history(ctx.rng, ctx.rng.randint(5, 40)) for _ in range(k)])
         done += k
     if ctx.evaluations and ctx.distinct_nontrivial < ctx.evaluations * 0.3:
